@@ -31,7 +31,8 @@ def View.toView (v : View) : Bytes :=
 
 -- src: view.rs:PeView::to_file (loop body)
 def toFileStep (image : Bytes) (vec : Bytes) (s : Sec) : Bytes :=
-  let dend := wadd32 s.prd s.rs
+  -- `dest_end = min(prd.wrapping_add(rs), vec.len())`: the part of the raw data that fits the clamped file
+  let dend := min (wadd32 s.prd s.rs) vec.size
   let send := wadd32 s.va s.vs
   if s.prd ≤ dend ∧ dend ≤ vec.size ∧ s.va ≤ send ∧ send ≤ image.size then
     blit vec s.prd image s.va (min (dend - s.prd) (send - s.va))
